@@ -5,6 +5,7 @@ From Coq Require Import ZifyBool.
 From Model Require Import Bytes Tables.
 From Gen Require Import Consts Tables.
 From Spec Require Import SpecTables.
+From Proofs Require Export SigLen.
 Open Scope Z_scope.
 
 Lemma assoc_notin l k : ~ In k (map fst l) -> assoc l k = None.
@@ -38,15 +39,10 @@ Definition known_codes : list Z :=
   map fst m_key_certificate_CryptoKeySizes_CryptoPublicKeySize ++
   map fst m_key_certificate_CryptoPublicKeySizes ++
   map fst m_key_certificate_SignaturePublicKeySizes ++
-  flat_map fst sw_signature_getSignatureLength ++
   flat_map fst sw_offline_signature_SigningPublicKeySize ++
   flat_map fst sw_offline_signature_SignatureSize ++
   map fst spec_signing ++ map fst spec_crypto.
 
-Definition optZ_eqb (a b : option Z) : bool :=
-  match a, b with Some x, Some y => x =? y | None, None => true | _, _ => false end.
-Lemma optZ_eqb_eq a b : optZ_eqb a b = true -> a = b.
-Proof. destruct a, b; cbn; intros H; try discriminate; [apply Z.eqb_eq in H; subst|]; reflexivity. Qed.
 Definition nz (v : Z) : option Z := if v =? 0 then None else Some v.
 
 (* the agreement statement for one code in 0..65535 *)
@@ -54,7 +50,6 @@ Definition agree_code (t : Z) : bool :=
   optZ_eqb (kc_sig_size t) (spec_sig_len t) &&
   optZ_eqb (kc_spk_size t) (spec_spk_len t) &&
   optZ_eqb (kc_sig_pub_sizes t) (spec_spk_len t) &&
-  optZ_eqb (sig_length t) (spec_sig_len t) &&
   optZ_eqb (nz (off_spk_size t)) (spec_spk_len t) &&
   optZ_eqb (nz (off_sig_size t)) (spec_sig_len t) &&
   optZ_eqb (kc_crypto_size t) (spec_crypto_len t) &&
@@ -69,9 +64,8 @@ Lemma agree_unknown t : 0 <= t <= 65535 -> ~ In t known_codes -> agree_code t = 
 Proof.
   intros R H. unfold known_codes in H. repeat rewrite in_app_iff in H.
   unfold agree_code, kc_sig_size, kc_spk_size, kc_sig_pub_sizes, kc_crypto_size, kc_crypto_pub_sizes,
-    sig_length, off_spk_size, off_sig_size, spec_sig_len, spec_spk_len, spec_crypto_len.
+    off_spk_size, off_sig_size, spec_sig_len, spec_spk_len, spec_crypto_len.
   rewrite (Z.mod_small t 65536) by lia.
-  replace ((t <? 0) || (t >? 65535))%bool with false by lia.
   rewrite !assoc_notin, !sw_lookup_notin, !lookup_notin by tauto.
   reflexivity.
 Qed.
@@ -86,18 +80,15 @@ Qed.
 Lemma C10_aux_crypto t : 0 <= t <= 65535 -> kc_crypto_size t = spec_crypto_len t /\ kc_crypto_pub_sizes t = spec_crypto_len t.
 Proof.
   intros R. pose proof (tables_agree_all t R) as H. unfold agree_code in H.
-  repeat rewrite Bool.andb_true_iff in H. destruct H as [[[[[[[A B] C] D] E] F] G] I].
+  repeat rewrite Bool.andb_true_iff in H. destruct H as [[[[[[A B] C] E] F] G] I].
   split; apply optZ_eqb_eq; assumption.
 Qed.
 Lemma C10_aux_signing t : 0 <= t <= 65535 -> kc_spk_size t = spec_spk_len t /\ kc_sig_size t = spec_sig_len t.
 Proof.
   intros R. pose proof (tables_agree_all t R) as H. unfold agree_code in H.
-  repeat rewrite Bool.andb_true_iff in H. destruct H as [[[[[[[A B] C] D] E] F] G] I].
+  repeat rewrite Bool.andb_true_iff in H. destruct H as [[[[[[A B] C] E] F] G] I].
   split; apply optZ_eqb_eq; assumption.
 Qed.
-(* outside the 16-bit range getSignatureLength is an error for every integer *)
-Lemma sig_length_out_of_range t : t < 0 \/ t > 65535 -> sig_length t = None.
-Proof. intros H. unfold sig_length. replace ((t <? 0) || (t >? 65535))%bool with true by lia. reflexivity. Qed.
 
 (* deny lists: the library's sets equal the specification's, for every integer *)
 Definition deny_codes : list Z :=
